@@ -19,7 +19,7 @@ UNIT = dict(
             ("R17-spawn", 1),
             ("R17-select", 1),
             ("sub", "R9-paths", r"tokio::sync::oneshot::channel\(\)", "oneshot_channel(Tracked(tr))", 1),
-            ("sub", "R9-paths", r"tokio::time::sleep\b", "sleep", -1),
+            ("sub", "R9-paths", r"tokio::time::(sleep_until|sleep|timeout_at|timeout)\b", r"\1", -1),
             ("sub", "R6-send", r"\btx\.send\((\w+)\)", r"tx.send(\1, Tracked(tr))", 1),
             ("R4",), ("R3",), ("R5",),
             ("sub", "R16-local-type", r"let result: Option<Result<S::Response, S::Error>> =", "let result: Option<Result<Res, E>> =", 1),
